@@ -10,7 +10,8 @@ def run(rep):
     rt_common.run_runtime(rep, PID, "wf_C03",
         ["fun (A V : Type) sem sem_slf dv => @C03_exactly_once A V sem sem_slf dv {i} {w}",
          "fun (A V : Type) sem sem_slf dv => @C03_same_arguments A V sem sem_slf dv {i} {w}",
-         "fun (A V : Type) sem sem_slf dv => @C03_own_reply A V sem sem_slf dv {i} {w}"],
+         "fun (A V : Type) sem sem_slf dv => @C03_own_reply A V sem sem_slf dv {i} {w}",
+         "fun (A V : Type) sem sem_slf dv => @C03_reply_reaches_waiter A V sem sem_slf dv {i} {w}"],
         rt_common.std_configs(rng, rep.tier, families=True),
         dfs=("bad_loss", "false"),
         search="c03_search", search_what="two clients call every messaging method once with position-tagged arguments, fair schedule (Runtime/Explore.v mixed); anomalies (kind, client, seq): 1 other method/arguments, 3 never executed, 4 executed twice, 5/6 foreign or fabricated reply, 7 caller panicked while actor alive")
